@@ -123,7 +123,10 @@ impl Validator {
             }
             if self.has_choice_selection_type(&key) {
                 if let Some((k, ToplevelDefinition::Type(mut tld))) = self.tlds.remove_entry(&key) {
-                    if let Err(mut e) = tld.ty.link_choice_selection_type(&self.tlds) {
+                    if let Err(mut e) = tld
+                        .ty
+                        .link_tagged_choice_selection_type(&mut tld.tag, &self.tlds)
+                    {
                         e.contextualize(&key);
                         warnings.push(e.into());
                     }
